@@ -203,8 +203,15 @@ func init() {
 				}
 				c.Compare("inputs.unmodified", op, M{"inputsChanged": before != after, "storedRecordChanged": changedStored}, M{"inputsChanged": false, "storedRecordChanged": false}, fmt.Sprint(op["op"]), true)
 				// determinism: a second relying party over an equal storage gives the same outcome
-				st2 := storeFromOp(op)
-				r2 := goCeremonyFromOp(op).run(webauthn.NewRelyingParty(string(unhx(op["origin"].(string))), st2))
+				// (several times: an outcome that depends on map iteration order or on a pool shows only now and then)
+				r2 := r1
+				for rep := 0; rep < 6; rep++ {
+					st2 := storeFromOp(op)
+					r2 = goCeremonyFromOp(op).run(webauthn.NewRelyingParty(string(unhx(op["origin"].(string))), st2))
+					if !reflect.DeepEqual(normalize(r2), normalize(r1)) {
+						break
+					}
+				}
 				c.Compare("deterministic", op, r2, r1, fmt.Sprint(op["op"]), true)
 				// and the model agrees with it
 				executors[op["op"].(string)](c, "deterministic.model", op)
@@ -361,6 +368,20 @@ func init() {
 					s.AttAlg = pick(c.R, attAlgsFor(f))
 					op := buildRegistration(c.R, s).Op()
 					runRegisterImpl(op)
+				}
+				// and of deviating ones that reach the tables by other paths: TPM manufacturer ids that are not registered (among them registered
+				// names spelt with the other padding byte), policies naming unknown formats and types
+				for v := 0; v < 10; v++ {
+					s := newRegSpec(c.R, "tpm", pick(c.R, credAlgsFor("tpm")))
+					s.AttAlg = pick(c.R, attAlgsFor("tpm"))
+					s.Dev["tpm.sanUnknownVendor"] = true
+					op := buildRegistration(c.R, s).Op()
+					op["_dev"] = "tpm.sanUnknownVendor"
+					runRegisterImpl(op)
+					if !reflect.DeepEqual(vend, tpmVendorSnapshot()) {
+						c.Compare("globals.unchanged", op, M{"vendorRegistrySame": false}, M{"vendorRegistrySame": true}, "tables/after-tpm", true)
+						break
+					}
 				}
 			}
 			after := fmt.Sprintf("%#v|%#v|%d", webauthn.AllAttestationFormats, webauthn.AllAttestationTypes, len(tpmVendors()))
